@@ -14,6 +14,41 @@ type Item struct {
 	Case *gen.Case
 	Tree *jt.Node
 	Raw  []byte
+	Kind string // "" grammar case, or "soup" / "probe:<zone>" / "other"
+}
+
+func (it Item) Label() string {
+	if it.Case != nil {
+		return it.Case.Verb
+	}
+	return it.Kind
+}
+
+func rawItem(kind string, tree *jt.Node, i int) Item {
+	st := []jt.Style{jt.Plain, jt.Plain, jt.GoLike, jt.Unicode}[i%4]
+	return Item{Tree: tree, Raw: tree.Bytes(st), Kind: kind}
+}
+
+// Vocabulary: driver list ∪ keys dumped from the tool's operator tables.
+func Vocabulary(s *sut.SUT, c *ev.Check) []string {
+	recs, crashed, _, err := s.Agent([]sut.AgentCmd{{"op": "vocab"}}, nil, 0)
+	var extra []string
+	if err == nil && crashed < 0 && len(recs) == 1 {
+		if ks, ok := recs[0]["keys"].([]any); ok {
+			for _, k := range ks {
+				if ks, ok := k.(string); ok {
+					extra = append(extra, ks)
+				}
+			}
+		}
+	}
+	if len(extra) == 0 {
+		c.Inconclusive("could not dump the tool's operator vocabulary through the agent")
+	}
+	v := gen.MergeVocab(extra)
+	c.Set("vocabulary_size", len(v))
+	c.Set("vocabulary_from_tool_tables", len(extra))
+	return v
 }
 
 func mkItem(cs *gen.Case, i int) Item {
@@ -122,7 +157,7 @@ func basicOutcome(c *ev.Check, sn Seen, judgeHere bool) bool {
 			} else if sn.OutErr != nil {
 				what, kind = "output is not one strict JSON object: "+sn.OutErr.Error(), "bad-json"
 			}
-			c.Violation(kind+"|"+sn.Item.Case.Verb, fmt.Sprintf("%s (flags %s)", what, sn.Flags), replayOf(sn, nil))
+			c.Violation(kind+"|"+sn.Item.Label(), fmt.Sprintf("%s (flags %s)", what, sn.Flags), replayOf(sn, nil))
 		} else {
 			c.Count("unjudged_no_output", 1)
 		}
